@@ -164,7 +164,7 @@ class CFG:
                 ctx.loop.continues.append(n)
             return []
         if not isinstance(s, (ast.Import, ast.ImportFrom, ast.Pass, ast.Global,
-                              ast.Nonlocal)):
+                              ast.Nonlocal)) and not _cannot_raise(s):
             # imports of modules of the analysed package are treated as
             # non-raising (they are resolved when the package is loaded)
             self._may_raise_edge(n, ctx)
@@ -326,6 +326,12 @@ class CFG:
         return None
 
     # }}}
+
+
+def _cannot_raise(s):
+    """`name = <literal constant>`: binding a constant to a local cannot raise."""
+    return isinstance(s, ast.Assign) and isinstance(s.value, ast.Constant) \
+        and all(isinstance(t, ast.Name) for t in s.targets)
 
 
 class _Loop:
